@@ -350,10 +350,15 @@ void MidiMappernRT::replaceMapping(int, bool, const char *){};
 
 void MidiMappernRT::clear(void)
 {
+    char buf[1024];
+    //the watches of the still queued addresses are withdrawn with them
+    for(size_t i=0; i<learnQueue.size(); ++i) {
+        rtosc_message(buf, 1024, "/midi-learn/midi-remove-watch","");
+        rt_cb(buf);
+    }
     storage = new MidiMapperStorage();
     learnQueue.clear();
     inv_map.clear();
-    char buf[1024];
     rtosc_message(buf, 1024, "/midi-learn/midi-bind", "b", sizeof(storage), &storage);
     rt_cb(buf);
 }
